@@ -13,6 +13,7 @@ import (
 	"github.com/itchio/lake/pools/fspool"
 	"github.com/itchio/lake/tlc"
 	"github.com/itchio/savior/seeksource"
+	"github.com/itchio/wharf/bsdiff"
 	"github.com/itchio/wharf/pwr"
 	"github.com/itchio/wharf/pwr/bowl"
 	"github.com/itchio/wharf/pwr/patcher"
@@ -206,6 +207,8 @@ type OptParams struct {
 	ForceMapAll bool  `json:"forceMapAll"`
 	SizeLimit   int64 `json:"sizeLimit"`
 	Comp        *Comp `json:"comp,omitempty"`
+	// Stats, when set, is handed to the optimizer as rediff.Params.BsdiffStats (public statistics)
+	Stats *bsdiff.DiffStats `json:"-"`
 }
 
 // Optimize runs the real rediff over patch.
@@ -217,6 +220,7 @@ func Optimize(patch []byte, oldDir, newDir string, op OptParams, out io.Writer) 
 		SuffixSortConcurrency: op.SSC,
 		ForceMapAll:           op.ForceMapAll,
 		RediffSizeLimit:       op.SizeLimit,
+		BsdiffStats:           op.Stats,
 	}
 	if op.Comp != nil {
 		params.Compression = op.Comp.Settings()
